@@ -84,7 +84,7 @@ def res(r, okf) -> str:
     kind, val = r
     if kind == 'ok':
         return f'(Ok {okf(val)})'
-    return f'(Err {val})' if not val.startswith('UNMODELLED_') else '(Err OutOfFuel)'
+    return f'(Err {val})' if not val.startswith('UNMODELLED_') else '(Err UnmodelledPythonException)'
 
 
 def build_circuit(d: dict):
